@@ -226,9 +226,11 @@ func topicClasses(thorough bool) [][2]string {
 	c := [][2]string{
 		{"valid", "a"}, {"empty", ""}, {"len69", rep("x", 69)}, {"len70", rep("Z", 70)}, {"len71", rep("x", 71)},
 		{"space", "a b"}, {"multibyte", "té"}, {"newline-end", "abc\n"}, {"allchars", "Az09._-"},
+		// far beyond the limit, at lengths whose low 8 bits look legal (truncating conversions)
+		{"len256", rep("q", 256)}, {"len300", rep("q", 300)}, {"len326", rep("q", 326)}, {"len65537", rep("q", 65537)},
 	}
 	if thorough {
-		c = append(c, [2]string{"len255", rep("q", 255)}, [2]string{"len256", rep("q", 256)}, [2]string{"nul", "a\x00b"}, [2]string{"slash", "a/b"},
+		c = append(c, [2]string{"len255", rep("q", 255)}, [2]string{"nul", "a\x00b"}, [2]string{"slash", "a/b"},
 			[2]string{"multibyte70bytes", rep("é", 35)}, [2]string{"multibyte36runes", rep("é", 36)}, [2]string{"tab", "a\tb"}, [2]string{"badutf8", "a\xffb"},
 			[2]string{"multibyte254bytes", rep("é", 127)}, [2]string{"multibyte256bytes", rep("é", 128)}, [2]string{"255runes-3bytes-each", rep("가", 255)})
 	}
@@ -236,17 +238,19 @@ func topicClasses(thorough bool) [][2]string {
 }
 
 func monikerClasses(thorough bool) [][2]string {
-	c := [][2]string{{"empty", ""}, {"valid", "mon.1"}, {"len70", rep("m", 70)}, {"len71", rep("m", 71)}, {"space", "a b"}, {"multibyte", "ü"}}
+	c := [][2]string{{"empty", ""}, {"valid", "mon.1"}, {"len70", rep("m", 70)}, {"len71", rep("m", 71)}, {"space", "a b"}, {"multibyte", "ü"},
+		{"len256", rep("m", 256)}, {"len300", rep("m", 300)}, {"len65600", rep("m", 65600)}}
 	if thorough {
-		c = append(c, [2]string{"newline-end", "m\n"}, [2]string{"len256", rep("m", 256)}, [2]string{"nul", "\x00"})
+		c = append(c, [2]string{"newline-end", "m\n"}, [2]string{"nul", "\x00"})
 	}
 	return c
 }
 
 func descClasses(thorough bool) [][2]string {
-	c := [][2]string{{"empty", ""}, {"len4999", rep("d", 4999)}, {"len5000", rep("d", 5000)}, {"len5001", rep("d", 5001)}, {"multibyte5000bytes", rep("é", 2500)}, {"multibyte2501runes", rep("é", 2501)}}
+	c := [][2]string{{"empty", ""}, {"len4999", rep("d", 4999)}, {"len5000", rep("d", 5000)}, {"len5001", rep("d", 5001)}, {"multibyte5000bytes", rep("é", 2500)}, {"multibyte2501runes", rep("é", 2501)},
+		{"len65536", rep("d", 65536)}, {"len70536", rep("d", 65536+5000)}}
 	if thorough {
-		c = append(c, [2]string{"control", "a\x00\x01\n"}, [2]string{"len65536", rep("d", 65536)})
+		c = append(c, [2]string{"control", "a\x00\x01\n"})
 	}
 	return c
 }
